@@ -94,6 +94,18 @@ class NmpfitStrategy(HoloPyObject):
         return [val.unscale(value) for val, value in zip(self._parameters,
                                                          values)]
 
+    def parameter_values_from_minimizer(self, values):
+        # the minimizer keeps the scaled values within the scaled limits;
+        # scaling back is exact only up to rounding, and one ulp beyond a
+        # bound the prior is zero (an infinite residual at the limit itself)
+        bounded = []
+        for par, value in zip(self._parameters,
+                              self.unscale_pars_from_minimizer(values)):
+            value = max(value, getattr(par, 'lower_bound', -np.inf))
+            value = min(value, getattr(par, 'upper_bound', np.inf))
+            bounded.append(value)
+        return bounded
+
     def fit(self, model, data):
         """
         fit a model to some data
@@ -182,7 +194,7 @@ class NmpfitStrategy(HoloPyObject):
 
         def resid_wrapper(parameters, fjac=None):
             status = 0
-            out = obj_func(self.unscale_pars_from_minimizer(parameters))
+            out = obj_func(self.parameter_values_from_minimizer(parameters))
             return [status, out]
 
         # now fit it
@@ -193,6 +205,6 @@ class NmpfitStrategy(HoloPyObject):
                 xtol = self.xtol, gtol = self.gtol, damp = self.damp,
                 maxiter = self.maxiter, quiet = self.quiet)
 
-        result_pars = self.unscale_pars_from_minimizer(fitresult.params)
+        result_pars = self.parameter_values_from_minimizer(fitresult.params)
 
         return result_pars, fitresult
